@@ -153,7 +153,8 @@ fn worker<P: Property>(args: &Args) -> i32 {
         Some(p) => {
             let txt = std::fs::read_to_string(p).unwrap_or_else(|_| "[]".into());
             let all: Vec<KnownEntry> = serde_json::from_str(&txt).unwrap_or_default();
-            all.into_iter().filter(|k| k.property == P::ID && k.status == "known").collect()
+            // keys are unique across properties (they start with the property id or the source file)
+            all.into_iter().filter(|k| !k.property.is_empty() && k.status == "known").collect()
         }
         None => vec![],
     };
@@ -184,6 +185,7 @@ fn worker<P: Property>(args: &Args) -> i32 {
     let progress_path = format!("{}.progress", out);
     let progress_file = std::fs::OpenOptions::new().create(true).write(true).truncate(true).open(&progress_path).ok();
     let mut seen_fail: Vec<(String, Option<String>)> = Vec::new();
+    let mut digest_log = args.opt.get("digest-log").and_then(|p| std::fs::File::create(p).ok()).map(std::io::BufWriter::new);
 
     let mut i = from + offset;
     while i < to {
@@ -203,7 +205,17 @@ fn worker<P: Property>(args: &Args) -> i32 {
             }
         }
         res.runs += 1;
-        match P::execute(&scn, &mut res.stats) {
+        trace_reset();
+        let verdict = P::execute(&scn, &mut res.stats);
+        if let Some(f) = digest_log.as_mut() {
+            let cls = match &verdict {
+                Verdict::Pass { sig, nontrivial } => format!("pass {:016x} {}", sig, nontrivial),
+                Verdict::Invalid(w) => format!("invalid {}", w),
+                Verdict::Fail(x) => format!("fail {} {:?}", x.oracle, x.key),
+            };
+            let _ = writeln!(f, "{} {:016x} {}", i, trace_get(), cls);
+        }
+        match verdict {
             Verdict::Pass { sig, nontrivial } => {
                 res.passes += 1;
                 if nontrivial {
